@@ -48,6 +48,37 @@ def _cands(*lits):
     return sorted(out)
 
 
+class _S(str):
+    """A plain str subclass."""
+
+
+_ENUM_CACHE: dict = {}
+
+
+def _forms(c, rich):
+    """The candidate as a plain str and - for the few `rich` candidates of a call - as an instance of a str subclass
+    and as a (str, Enum) member whose value it is (its str() is `Name.X`, its content is the candidate)."""
+    yield c
+    if rich:
+        yield _S(c)
+        if c not in _ENUM_CACHE:
+            import enum
+
+            try:
+                _ENUM_CACHE[c] = enum.Enum("Plat", {"X": c}, type=str).X
+            except Exception:  # noqa: BLE001
+                _ENUM_CACHE[c] = None
+        if _ENUM_CACHE[c] is not None:
+            yield _ENUM_CACHE[c]
+
+
+def _truth(spec, c) -> bool:
+    """Independent reading of a string specifier on the CONTENT of a candidate (plain-str semantics)."""
+    c = str.__str__(c) if type(c) is str else str.__getitem__(c, slice(None))
+    v = spec.value
+    return {"==": c == v, "!=": c != v, "in": c in v, "not in": c not in v}[spec.op]
+
+
 def setup(ctx):
     import dep_logic.specifiers as S
 
@@ -62,19 +93,27 @@ def setup(ctx):
             if a != b:
                 ctx.nontrivial(name, a.op, a.value, b.op, b.value)
             ctx.shape(f"branch:{name}:{min(a.op, b.op, key=OPS.index)}/{max(a.op, b.op, key=OPS.index)}")
-            for c in _cands(a.value, b.value):
+            for c0 in _cands(a.value, b.value):
+              for c in _forms(c0, c0 in (a.value, b.value, FOREIGN, "")):
                 ctx.evaluations += 1
                 try:
                     got = c in r
+                    ina, inb = c in a, c in b
                 except Exception as e:  # noqa: BLE001
                     violation(PROP, f"GenericSpecifier.{name}", f"membership in the result raised {type(e).__name__}",
-                              {"a": str(a), "b": str(b), "result": repr(r)})
+                              {"a": str(a), "b": str(b), "result": repr(r), "candidate_type": type(c).__name__})
                     return
-                exp = comb(c in a, c in b)
+                exp = comb(_truth(a, c), _truth(b, c))
+                if (ina, inb) != (_truth(a, c), _truth(b, c)):
+                    violation(PROP, "GenericSpecifier.__contains__", "membership in an operand differs from the plain reading "
+                              "of its operator on the candidate's content",
+                              {"a": str(a), "b": str(b), "candidate": str.__getitem__(c, slice(None)), "candidate_type": type(c).__name__,
+                               "in_a": ina, "in_b": inb, "group": "contains/" + type(c).__name__})
+                    return
                 if got != exp:
                     violation(PROP, f"GenericSpecifier.{name}", f"{name} of two string specifiers is not exact",
-                              {"a": str(a), "b": str(b), "result": repr(r), "candidate": c, "got": got, "expected": exp,
-                               "group": f"{a.op}/{b.op}"})
+                              {"a": str(a), "b": str(b), "result": repr(r), "candidate": str.__getitem__(c, slice(None)),
+                               "candidate_type": type(c).__name__, "got": got, "expected": exp, "group": f"{a.op}/{b.op}"})
                     return
         return post
 
